@@ -21,6 +21,7 @@ import (
 	"io"
 	"math/rand/v2"
 	"reflect"
+	"runtime/debug"
 	"sort"
 	"strconv"
 	"strings"
@@ -932,15 +933,74 @@ func (r *c16chunkReader) Read(p []byte) (int, error) {
 var c16decOps = []string{"RT", "RV", "SV", "PK"}
 
 // c16runDecScript runs one call script over doc and checks positions after every call.
-func c16runDecScript(c *Ctx, doc []byte, script []int, toks []c16tok, valueEnd map[int]int, reader, probeEvery int) {
-	var dec *jsontext.Decoder
-	switch reader {
+// c16reader: 0 *bytes.Buffer, 1 *bytes.Reader (refills and buffer compaction happen), n>1 chunks of n-1 bytes.
+func c16reader(kind int, doc []byte) io.Reader {
+	switch kind {
 	case 0:
-		dec = jsontext.NewDecoder(bytes.NewBuffer(append([]byte(nil), doc...)))
+		return bytes.NewBuffer(append([]byte(nil), doc...))
 	case 1:
-		dec = jsontext.NewDecoder(bytes.NewReader(doc)) // refills and buffer compaction happen
+		return bytes.NewReader(doc)
 	default:
-		dec = jsontext.NewDecoder(&c16chunkReader{data: doc, n: reader - 1})
+		return &c16chunkReader{data: doc, n: kind - 1}
+	}
+}
+
+// Histories a coder may have behind it when it is Reset onto new data.  Positions are about what THIS coder
+// consumed/produced since its (re)initialisation, so after Reset everything must be as for a fresh coder.
+var c16ageDocs = sync.OnceValue(func() [][]byte {
+	r := rand.New(rand.NewPCG(16, 16))
+	grow := func(min int) []byte {
+		var sb strings.Builder
+		sb.WriteString("[")
+		for sb.Len() < min {
+			if sb.Len() > 1 {
+				sb.WriteString(",")
+			}
+			sb.WriteString(c16genValue(r, 1, 4, true))
+		}
+		sb.WriteString("]")
+		return []byte(sb.String())
+	}
+	return [][]byte{nil, []byte(`[1]`), grow(100), grow(5000), grow(6000), append(grow(200)[:150], "]}}"...), grow(300), grow(100)}
+})
+
+const c16nAges = 8
+
+// c16agedDecoder returns a Decoder for doc: fresh (age 0) or one that has a history on other input and was Reset.
+//   1 short value read completely   2 >64 B read completely   3 >4 KiB read completely (chunked reader)
+//   4 >4 KiB abandoned mid-value    5 history ending in a syntax error   6 >64 B from a *bytes.Buffer
+//   7 >64 B read by ReadValue, then PeekKind at EOF (cached peek error)
+func c16agedDecoder(age, reader int, doc []byte) *jsontext.Decoder {
+	if age == 0 {
+		return jsontext.NewDecoder(c16reader(reader, doc))
+	}
+	h := c16ageDocs()[age]
+	hr := []int{0, 1, 1, 65, 1, 1, 0, 8}[age]
+	dec := jsontext.NewDecoder(c16reader(hr, h))
+	switch age {
+	case 4:
+		for i := 0; i < 7; i++ {
+			dec.ReadToken()
+		}
+	case 7:
+		dec.ReadValue()
+		dec.PeekKind()
+	default:
+		for {
+			if _, err := dec.ReadToken(); err != nil {
+				break
+			}
+		}
+	}
+	dec.Reset(c16reader(reader, doc))
+	return dec
+}
+
+func c16runDecScript(c *Ctx, doc []byte, script []int, toks []c16tok, valueEnd map[int]int, reader, probeEvery, age int) {
+	var dec *jsontext.Decoder
+	if pn := guard(func() { dec = c16agedDecoder(age, reader, doc) }); pn != nil {
+		c.Panic("Decoder/Reset", doc, pn, map[string]any{"age": age})
+		return
 	}
 	prev := int64(0)
 	var trace []string
@@ -961,7 +1021,7 @@ func c16runDecScript(c *Ctx, doc []byte, script []int, toks []c16tok, valueEnd m
 				kind = dec.PeekKind()
 			}
 		})
-		detail := map[string]any{"script": strings.Join(trace, " "), "doc": string(doc)}
+		detail := map[string]any{"script": strings.Join(trace, " "), "doc": string(doc), "reader": reader, "reset_after_history": age}
 		if pn != nil {
 			c.Panic("Decoder/"+op, doc, pn, detail)
 			return
@@ -1091,7 +1151,7 @@ func c16Decoder(c *Ctx) {
 			var rec func()
 			rec = func() {
 				if len(script) == L {
-					c16runDecScript(c, doc, script, toks, valueEnd, (len(doc)+script[0])%2, 1+2*(script[1]%2))
+					c16runDecScript(c, doc, script, toks, valueEnd, (len(doc)+script[0])%2, 1+2*(script[1]%2), (len(doc)+script[2]+4*script[3])%c16nAges)
 					c.Case("dec:"+d+fmt.Sprint(script), true)
 					return
 				}
@@ -1118,7 +1178,12 @@ func c16Decoder(c *Ctx) {
 		}
 		rd := []int{0, 1, 2, 4, 8, 65}[r.IntN(6)]
 		pe := []int{1, 2, 5, 1000}[r.IntN(4)]
-		c16runDecScript(c, doc, script, toks, valueEnd, rd, pe)
+		age := 0
+		if r.IntN(2) == 0 {
+			age = r.IntN(c16nAges)
+		}
+		c16runDecScript(c, doc, script, toks, valueEnd, rd, pe, age)
+		c.Hit(fmt.Sprintf("dec/reset-after-history-%d", age))
 		c.Hit(fmt.Sprintf("dec/probe-every-%d", pe))
 		c.Hit(fmt.Sprintf("dec/reader-kind-%d", rd))
 		c.Hit(fmt.Sprintf("dec/random-doc-bytes-%d", len(doc)/64*64))
@@ -1154,19 +1219,80 @@ func c16encAlphabet() []c16encOp {
 	}
 }
 
-func c16runEncScript(c *Ctx, script []c16encOp, plain bool, opts []jsontext.Options, optName string) {
+// Writer states a caller can legally hand over:
+//   0 empty *bytes.Buffer          1 plain io.Writer
+//   2 *bytes.Buffer already holding foreign bytes (appending NDJSON records)
+//   3 *bytes.Buffer drained by the caller between top-level values (Next / Reset / Truncate in turn)
+//   4 pre-filled and partially drained between top-level values
+const c16nWriterModes = 5
+
+var c16writerModeNames = []string{"bytes.Buffer", "plain", "bytes.Buffer-prefilled", "bytes.Buffer-drained", "bytes.Buffer-prefilled-drained"}
+
+// Encoder histories before Reset: 1 short value → bytes.Buffer, 2 ~200 B → plain, 3 >4 KiB → bytes.Buffer,
+// 4 abandoned mid-value → plain, 5 ending in a rejected call → bytes.Buffer, 6 >4 KiB then mid-value → plain.
+const c16nEncAges = 7
+
+func c16agedEncoder(age int, w io.Writer, opts []jsontext.Options) *jsontext.Encoder {
+	if age == 0 {
+		return jsontext.NewEncoder(w, opts...)
+	}
+	var hw io.Writer
+	if age%2 == 1 {
+		hw = bytes.NewBufferString("old bytes\n")
+	} else {
+		hw = &c16plainWriter{}
+	}
+	enc := jsontext.NewEncoder(hw)
+	switch age {
+	case 1:
+		enc.WriteToken(jsontext.Int(1))
+	case 2:
+		enc.WriteValue(jsontext.Value(`{"k":"` + strings.Repeat("v", 200) + `"}`))
+	case 3:
+		enc.WriteToken(jsontext.String(strings.Repeat("x", 6000)))
+		enc.WriteToken(jsontext.Null)
+	case 4:
+		enc.WriteToken(jsontext.BeginArray)
+		enc.WriteToken(jsontext.BeginObject)
+		enc.WriteToken(jsontext.String("name"))
+	case 5:
+		enc.WriteToken(jsontext.BeginArray)
+		enc.WriteToken(jsontext.EndObject)
+	case 6:
+		enc.WriteToken(jsontext.BeginArray)
+		enc.WriteToken(jsontext.String(strings.Repeat("y", 9000)))
+		enc.WriteToken(jsontext.BeginObject)
+	}
+	enc.Reset(w, opts...)
+	return enc
+}
+
+func c16runEncScript(c *Ctx, script []c16encOp, wmode, age int, opts []jsontext.Options, optName string) {
 	export := jsontext.Internal.Export(&internal.AllowInternalUse)
 	var bb bytes.Buffer
 	pw := &c16plainWriter{}
+	plain := wmode == 1
+	foreignLeft := 0 // foreign bytes still at the front of bb
+	if wmode == 2 || wmode == 4 {
+		foreign := strings.Repeat(`{"earlier":"record"}`+"\n", 1+len(script)%7)
+		bb.WriteString(foreign)
+		foreignLeft = len(foreign)
+	}
+	var collected []byte // bytes of THIS encoder that the caller already drained from bb
 	var enc *jsontext.Encoder
-	if plain {
-		enc = jsontext.NewEncoder(pw, opts...)
-	} else {
-		enc = jsontext.NewEncoder(&bb, opts...)
+	if pn := guard(func() {
+		if plain {
+			enc = c16agedEncoder(age, pw, opts)
+		} else {
+			enc = c16agedEncoder(age, &bb, opts)
+		}
+	}); pn != nil {
+		c.Panic("Encoder/Reset", []byte(optName), pn, map[string]any{"age": age})
+		return
 	}
 	var trace []string
 	id := []byte(optName)
-	for _, op := range script {
+	for ci, op := range script {
 		trace = append(trace, op.name)
 		var err error
 		pn := guard(func() {
@@ -1176,7 +1302,7 @@ func c16runEncScript(c *Ctx, script []c16encOp, plain bool, opts []jsontext.Opti
 				err = enc.WriteValue(jsontext.Value(op.val))
 			}
 		})
-		detail := map[string]any{"script": strings.Join(trace, " "), "writer": map[bool]string{true: "plain", false: "bytes.Buffer"}[plain], "opts": optName}
+		detail := map[string]any{"script": strings.Join(trace, " "), "writer": c16writerModeNames[wmode], "opts": optName, "reset_after_history": age}
 		in := append(append([]byte{}, id...), []byte(" "+strings.Join(trace, " "))...)
 		if pn != nil {
 			c.Panic("Encoder/Write", in, pn, detail)
@@ -1189,7 +1315,7 @@ func c16runEncScript(c *Ctx, script []c16encOp, plain bool, opts []jsontext.Opti
 			if plain {
 				produced = append(append([]byte{}, pw.data...), export.Encoder(enc).Buf...)
 			} else {
-				produced = append(append([]byte{}, bb.Bytes()...), export.Encoder(enc).Buf...)
+				produced = append(append(append([]byte{}, collected...), bb.Bytes()[foreignLeft:]...), export.Encoder(enc).Buf...)
 			}
 		}); pn != nil {
 			c.Panic("Encoder/OutputOffset", in, pn, detail)
@@ -1205,6 +1331,36 @@ func c16runEncScript(c *Ctx, script []c16encOp, plain bool, opts []jsontext.Opti
 		}
 		if !c16comparePositions(c, "Encoder", opn, enc, off, produced, in, detail) {
 			return
+		}
+		// the caller drains the buffer between top-level values (everything is flushed then)
+		if (wmode == 3 || wmode == 4) && enc.StackDepth() == 0 && len(export.Encoder(enc).Buf) == 0 && bb.Len() > 0 {
+			k := bb.Len()
+			if wmode == 4 {
+				k = 1 + (ci*7+len(script))%bb.Len() // partial
+			}
+			var got []byte
+			switch (ci + len(script)) % 3 {
+			case 0:
+				got = append(got, bb.Next(k)...)
+			case 1:
+				if k == bb.Len() {
+					got = append(got, bb.Bytes()...)
+					bb.Reset()
+				} else {
+					got = append(got, bb.Next(k)...)
+				}
+			default:
+				if k == bb.Len() {
+					got = append(got, bb.Bytes()...)
+					bb.Truncate(0)
+				} else {
+					got = append(got, bb.Next(k)...)
+				}
+			}
+			f := min(foreignLeft, len(got))
+			foreignLeft -= f
+			collected = append(collected, got[f:]...)
+			c.Hit("enc/caller-drained-buffer")
 		}
 	}
 }
@@ -1238,7 +1394,7 @@ func c16Encoder(c *Ctx) {
 						h = h*31 + len(o.name) + int(o.name[0])
 					}
 					os := optSets[h%len(optSets)]
-					c16runEncScript(c, script, h%2 == 0, os.opts, os.name)
+					c16runEncScript(c, script, h%c16nWriterModes, (h/5)%c16nEncAges, os.opts, os.name)
 					c.Case("enc:"+fmt.Sprint(h, len(script))+script[0].name+script[1].name+script[2].name+script[len(script)-1].name, true)
 					return
 				}
@@ -1323,7 +1479,13 @@ func c16Encoder(c *Ctx) {
 			script = append(script, op)
 		}
 		os := optSets[r.IntN(len(optSets))]
-		c16runEncScript(c, script, r.IntN(2) == 0, os.opts, os.name)
+		wm, ea := r.IntN(c16nWriterModes), 0
+		if r.IntN(2) == 0 {
+			ea = r.IntN(c16nEncAges)
+		}
+		c16runEncScript(c, script, wm, ea, os.opts, os.name)
+		c.Hit("enc/writer-" + c16writerModeNames[wm])
+		c.Hit(fmt.Sprintf("enc/reset-after-history-%d", ea))
 		c.Hit(fmt.Sprintf("enc/random-script-len-%d", ln/16*16))
 		c.Case(fmt.Sprint("encR:", i), true)
 	}
@@ -1501,7 +1663,8 @@ func c16checkRejected(c *Ctx, path string, in []byte, s *c16scan, err error, mut
 		// sub-class: a non-string token where a member name is expected is lexed (and its own syntax errors
 		// reported) before the name requirement is checked
 		if s.nameExpected && s.breakAt >= 0 && in[s.breakAt] != '"' {
-			c.Violate("error-offset-inside-malformed-nonstring-name", path, in, detail)
+			base, _, _ := strings.Cut(path, "/")
+			c.Violate("error-offset-inside-malformed-nonstring-name", base, in, detail)
 			return ei, false
 		}
 		c.Violate("error-offset-past-viable-prefix", path, in, detail)
@@ -1541,11 +1704,7 @@ func c16checkRejected(c *Ctx, path string, in []byte, s *c16scan, err error, mut
 	}
 	// classify the miss: grandparent (or higher) vs something unrelated
 	kind := "error-pointer-unrelated"
-	if top := s.frames[len(s.frames)-1]; s.breakAt >= 0 && (in[s.breakAt] == ']' || in[s.breakAt] == '}') && top.kind == '{' &&
-		top.expect == ',' && len(s.frames) >= 3 && ei.pointer == c16parent(ptrC) {
-		// mismatched closing delimiter right after a complete member of a nested object: the grandparent is reported
-		kind = "mismatch-delim-after-member-grandparent-pointer"
-	} else if jsontext.Pointer(ei.pointer).Contains(jsontext.Pointer(ptrC)) {
+	if jsontext.Pointer(ei.pointer).Contains(jsontext.Pointer(ptrC)) {
 		kind = "error-pointer-ancestor"
 	} else if strings.HasPrefix(ei.pointer, ptrC+"/") {
 		kind = "error-pointer-wrong-child"
@@ -1643,11 +1802,7 @@ func c16checkOne(c *Ctx, r *rand.Rand, in []byte, mut string) {
 		}); pn != nil {
 			c.Panic("value-path/bytes.Reader", in, pn, nil)
 		} else if rd := c16classify(err); valOK && rd.ok && (rd.pointer != valInfo.pointer || rd.offset != valInfo.offset) {
-			kind := "error-location-depends-on-reader"
-			if rd.offset == valInfo.offset && strings.Count(rd.pointer, "/") == strings.Count(valInfo.pointer, "/") {
-				kind = "stale-member-name-after-refill" // same offset, same shape: only member-name tokens differ
-			}
-			c.Violate(kind, "value-path/bytes.Reader", in, map[string]any{"input": string(in), "mutation": mut,
+			c.Violate("error-location-depends-on-reader", "value-path/bytes.Reader", in, map[string]any{"input": string(in), "mutation": mut,
 				"bytes.Buffer": map[string]any{"offset": valInfo.offset, "pointer": valInfo.pointer},
 				"bytes.Reader": map[string]any{"offset": rd.offset, "pointer": rd.pointer, "err": rd.text}})
 		}
@@ -1904,6 +2059,154 @@ func c16Semantic(c *Ctx) {
 }
 
 // ---------------------------------------------------------------------------------------------
+// (e) coder reuse through the pools and through Reset at the json level
+// ---------------------------------------------------------------------------------------------
+
+// c16Pooled runs consecutive json.UnmarshalRead / UnmarshalDecode / MarshalWrite calls in ONE goroutine with the
+// garbage collector off, so that sync.Pool hands the same coder back: error offsets and pointers must be
+// relative to the CURRENT input / output, whatever the previous call read or wrote.
+func c16Pooled(c *Ctx) {
+	old := debug.SetGCPercent(-1)
+	defer debug.SetGCPercent(old)
+	r := c.SubRng(600)
+	ages := c16ageDocs()
+	n := c.N(6000, 200000)
+	dec := jsontext.NewDecoder(bytes.NewReader(nil)) // one Decoder reused by Reset for UnmarshalDecode
+	for i := 0; i < n; i++ {
+		// 1. age the pools: a valid document of some size through a reader of some kind
+		hk := 1 + r.IntN(c16nAges-1)
+		h := ages[hk]
+		rk := []int{1, 1, 8, 65, 0}[r.IntN(5)]
+		var sink any
+		if hk == 5 {
+			guard(func() { json.UnmarshalRead(c16reader(rk, h), &sink) }) // history ending in an error
+		} else if pn := guard(func() {
+			if err := json.UnmarshalRead(c16reader(rk, h), &sink); err != nil {
+				fail("c16: ageing document rejected: %v", err)
+			}
+		}); pn != nil {
+			c.Panic("UnmarshalRead", h, pn, nil)
+			continue
+		}
+		c.Hit(fmt.Sprintf("pool/history-%d-reader-%d", hk, rk))
+		// 2. a rejected text through UnmarshalRead (pooled decoder) and UnmarshalDecode (Reset decoder)
+		in, mut := c16mutate(r, []byte(c16genDoc(r, 4, true)))
+		rk2 := []int{1, 8, 0}[r.IntN(3)]
+		if sSingle := c16run(in, true, false); !(sSingle.breakAt < 0 && sSingle.tokStart < 0 && sSingle.complete) {
+			var v any
+			var err error
+			if pn := guard(func() { err = json.UnmarshalRead(c16reader(rk2, in), &v) }); pn != nil {
+				c.Panic("UnmarshalRead", in, pn, nil)
+			} else {
+				c16checkRejected(c, "Unmarshal-any/UnmarshalRead-after-pooled-history", in, sSingle, err, mut)
+			}
+			c.Case("poolU:"+string(in), true)
+		}
+		if sStream := c16run(in, false, false); !(sStream.breakAt < 0 && sStream.tokStart < 0 && sStream.complete) {
+			var err error
+			if pn := guard(func() {
+				// give the reused decoder its own history first
+				dec.Reset(c16reader(rk, h))
+				for k := 0; k < 3+r.IntN(40); k++ {
+					if _, e := dec.ReadToken(); e != nil {
+						break
+					}
+				}
+				dec.Reset(c16reader(rk2, in))
+				for {
+					var v any
+					if err = json.UnmarshalDecode(dec, &v); err != nil {
+						return
+					}
+				}
+			}); pn != nil {
+				c.Panic("UnmarshalDecode", in, pn, nil)
+			} else {
+				c16checkRejected(c, "value-path/UnmarshalDecode-after-Reset", in, sStream, err, mut)
+			}
+			c.Case("poolD:"+string(in), true)
+		}
+		// 3. a conversion error through UnmarshalRead
+		if i%3 == 0 {
+			sc := c16genSem(r, r.IntN(5))
+			target := reflect.New(sc.typ)
+			var err error
+			if pn := guard(func() { err = json.UnmarshalRead(c16reader(rk2, sc.text), target.Interface()) }); pn != nil {
+				c.Panic("UnmarshalRead-typed", sc.text, pn, nil)
+			} else {
+				var se *json.SemanticError
+				detail := map[string]any{"type": sc.typ.String(), "text": string(sc.text), "want_pointer": sc.pointer, "want_offset": sc.offset, "history": hk}
+				if !errors.As(err, &se) {
+					detail["err"] = fmt.Sprint(err)
+					c.Violate("not-a-semantic-error", "UnmarshalRead-typed", sc.text, detail)
+				} else if string(se.JSONPointer) != sc.pointer || int(se.ByteOffset) != sc.offset {
+					detail["JSONPointer"], detail["ByteOffset"] = string(se.JSONPointer), se.ByteOffset
+					c.Violate("semantic-location-mismatch", "UnmarshalRead-typed", sc.text, detail)
+				}
+			}
+			c.Case("poolS:"+string(sc.text), true)
+		}
+		// 4. MarshalWrite: a value whose k-th element cannot be marshaled; the error offset is the number of bytes
+		// THIS call produced before it, for every writer state
+		if i%4 == 0 {
+			var elems []any
+			var prefix strings.Builder
+			prefix.WriteString("[")
+			k := r.IntN(6)
+			for j := 0; j < k; j++ {
+				sz := []int{1, 50, 700, 5000}[r.IntN(4)]
+				str := strings.Repeat("s", sz)
+				elems = append(elems, str)
+				prefix.WriteString(`"` + str + `",`)
+			}
+			elems = append(elems, make(chan int))
+			hi := prefix.Len()
+			lo := hi
+			if k > 0 {
+				lo = hi - 1 // before the comma
+			}
+			offs := map[string]int64{}
+			for _, wm := range []int{0, 1, 2, 3} {
+				var bb bytes.Buffer
+				pw := &c16plainWriter{}
+				var w io.Writer = &bb
+				switch wm {
+				case 1:
+					w = pw
+				case 2:
+					bb.WriteString(strings.Repeat("foreign\n", 1+r.IntN(20)))
+				case 3: // earlier output of the same kind of call, then drained by the caller
+					guard(func() { json.MarshalWrite(&bb, []string{strings.Repeat("e", 300)}) })
+					bb.Next(bb.Len() / 2)
+				}
+				var err error
+				if pn := guard(func() { err = json.MarshalWrite(w, elems) }); pn != nil {
+					c.Panic("MarshalWrite", []byte(prefix.String()), pn, nil)
+					continue
+				}
+				var se *json.SemanticError
+				detail := map[string]any{"writer": c16writerModeNames[wm], "elements_before_error": k, "want_lo": lo, "want_hi": hi}
+				if !errors.As(err, &se) {
+					detail["err"] = fmt.Sprint(err)
+					c.Violate("not-a-semantic-error", "MarshalWrite", []byte(trunc(prefix.String(), 200)), detail)
+					continue
+				}
+				detail["ByteOffset"], detail["JSONPointer"] = se.ByteOffset, string(se.JSONPointer)
+				offs[c16writerModeNames[wm]] = se.ByteOffset
+				if int(se.ByteOffset) < lo || int(se.ByteOffset) > hi {
+					c.Violate("marshal-error-offset-mismatch", "MarshalWrite", []byte(trunc(prefix.String(), 200)), detail)
+				}
+				if string(se.JSONPointer) != "/"+strconv.Itoa(k) {
+					c.Violate("marshal-error-pointer-mismatch", "MarshalWrite", []byte(trunc(prefix.String(), 200)), detail)
+				}
+			}
+			c.Case(fmt.Sprint("poolM:", k, hi), true)
+			c.Hit(fmt.Sprintf("pool/marshal-error-after-%d-bytes", hi/1024*1024))
+		}
+	}
+}
+
+// ---------------------------------------------------------------------------------------------
 
 func runC16(c *Ctx) {
 	// self-test of the tracker on a few hand-checked cases (machinery, not a verdict)
@@ -1920,7 +2223,7 @@ func runC16(c *Ctx) {
 	parts := []struct {
 		name string
 		f    func(*Ctx)
-	}{{"correspondence", c16Correspondence}, {"decoder", c16Decoder}, {"encoder", c16Encoder}, {"rejected", c16Rejected}, {"semantic", c16Semantic}}
+	}{{"correspondence", c16Correspondence}, {"decoder", c16Decoder}, {"encoder", c16Encoder}, {"rejected", c16Rejected}, {"semantic", c16Semantic}, {"pooled", c16Pooled}}
 	for _, p := range parts {
 		p.f(c)
 	}
